@@ -180,7 +180,7 @@ def SEntryE.idWf (e : SEntryE) (mMs mSeq : Nat) : Prop :=
     0 ≤ (mSeq : Int) + dseq ∧ (mSeq : Int) + dseq < (2 ^ 64 : Nat)
 
 def SNodeE.wf (n : SNodeE) : Prop :=
-  n.w.wf ∧ n.w.val = n.blob ∧ lpWf n.lpEntries ∧ n.masterMs < 2 ^ 64 ∧ n.masterSeq < 2 ^ 64 ∧
+  n.w.wf ∧ n.w.val = n.blob ∧ (lpWf n.lpEntries ∧ n.lpEntries.length < 65535) ∧ n.masterMs < 2 ^ 64 ∧ n.masterSeq < 2 ^ 64 ∧
   ∀ e ∈ n.entries, (e.same = false → e.items.length % 2 = 0) ∧ (e.same = true → e.items.length = n.masterFields.length)
 
 instance SNodeE.decWf (n : SNodeE) : Decidable n.wf := by unfold SNodeE.wf; exact inferInstance
